@@ -71,6 +71,11 @@ META.update({
          "level_text": "Exploration that is exhaustive over its finite domain: every public constant (~236) is compared with a manual-derived table, user-mode-observable bits are cross-checked against the real CPU, and every small codec is enumerated over its whole input type.",
          "level_note": PURE_NOTE},
 })
+META.update({
+ "C13": {"engine": "vx-irqsim", "design_ref": "DESIGN.md §6 C13", "technique": "raw-byte IDT diff over all range installations + simulated interrupt delivery into the real x86-interrupt stubs (hardware-format frame on a scratch stack, native iretq) with an observing general handler",
+         "level_text": "Exploration, exhaustive over vectors and (thorough) over all (lo,hi) range pairs; frame contents and error codes are sampled. The stubs and iretq run natively on the real CPU in ring 3.",
+         "level_note": "Trusted: the 60-line delivery trampoline (irqsim.rs) that builds the frame exactly as SDM vol.3 6.14 describes, the raw-byte gate decoder. Limits: only same-privilege delivery, flags restricted to arithmetic/DF/ID bits."},
+})
 NOT_APPLICABLE = {}
 ENGINES = [
  {"name": "vx-pure", "path": "harness/src/props/c03.rs..c08.rs, harness/src/gen.rs", "serves_properties": ["C03", "C04", "C05", "C06", "C07", "C08", "C15", "C19"],
@@ -80,6 +85,8 @@ ENGINES.append({"name": "vx-paging", "path": "harness/src/props/paging.rs, harne
   "kind_free_text": "real mapper code over simulated physical memory; reference model + raw-memory walker + byte diff + allocator log after every call; fault injection by state forking"})
 ENGINES.append({"name": "vx-trap", "path": "harness/src/trapemu.rs, harness/src/props/c17.rs, c18.rs", "serves_properties": ["C11", "C12", "C14", "C16", "C17", "C18"],
   "kind_free_text": "SIGSEGV/SIGILL trap-and-emulate monitor: decodes the privileged instruction the crate really executed, logs operands, applies it to an emulated register file, resumes"})
+ENGINES.append({"name": "vx-irqsim", "path": "harness/src/irqsim.rs, harness/src/props/c13.rs", "serves_properties": ["C13"],
+  "kind_free_text": "simulated interrupt delivery in ring 3: hardware-format stack frame, jump into the installed stub, native iretq back; observing general handler"})
 HOOK_COMMITS = ["fa1ff97", "dc6676e", "2bec2c6"]
 NOTES = ("Runtime monitoring and sanitizers. ./check <ID> rebuilds the harness crate (harness/, binary vx) against /repo's working tree in "
          "two profiles, runs sharded monitor processes, filters known findings (known_findings.json) and writes evidence/<ID>.json. "
